@@ -293,6 +293,19 @@ def r18_3(run):
         cnd, pol = norm_cond(*upd[0].cond[-1])
         lv = ("loop", upd[0].loops[-1], 0)
         ok = (not pol) and cnd[0] == "opn" and cnd[1] == "&" and any(contains(x, lv) for x in cnd[2]) and contains(upd[0].args[0], lv)
+    if not ok:
+        # the same selection written as a comprehension over the connected components that is united into the result
+        for e_ in rets:
+            for x in walk(e_.value):
+                if x[0] == "comp" and len(x[3]) == 1:
+                    bv, it_, ifs = x[3][0]
+                    if not (it_[0] == "call" and it_[1][0] == "x" and it_[1][1].endswith("connected_components") and it_[2]
+                            and contains(it_[2][0], ("n", "mg")) and len(ifs) == 1 and contains(x[2], bv)):
+                        continue
+                    cnd, pol = norm_cond(ifs[0], True)
+                    if (not pol) and cnd[0] == "opn" and cnd[1] == "&" and any(contains(y, bv) for y in cnd[2]) \
+                            and any(not contains(y, bv) for y in cnd[2]):
+                        ok = True
     run.ob("components-without-slack", ok,
            "exactly the connected components of the graph that contain no slack junction are reported", w)
     run.floor(7)
